@@ -5,6 +5,7 @@ package main
 // callees replaced by their contracts (or inlined when they have none and are in the repo).
 
 import (
+	"os"
 	"fmt"
 	"go/constant"
 	"go/token"
@@ -447,7 +448,8 @@ func (x *Exec) instantiationAid(st *State, goal *Term) []*Term {
 	wit := []*Term{}
 	if ng.hasQ {
 		for _, w := range x.aidPoints(st, tb.True()) {
-			if len(wit) < 8 {
+			// witnesses of hypothesis-side existentials and CRC lemma indices (not the skolems of earlier goals)
+			if len(wit) < 10 && (strings.Contains(w.name, "!wit") || strings.Contains(w.name, "!skf") || strings.HasPrefix(w.name, "crc.k")) {
 				wit = append(wit, w)
 			}
 		}
@@ -463,7 +465,18 @@ func (x *Exec) instantiationAid(st *State, goal *Term) []*Term {
 		}
 	}
 	var out []*Term
-	for pass := 0; pass < 3; pass++ {
+	dbg := os.Getenv("GOVC_AIDTRACE") != "" && len(wit) > 0 && len(hyps) > 3
+	for pass := 0; pass < 4; pass++ {
+		if dbg {
+			n := 0
+			for _, v := range apps {
+				n += len(v)
+			}
+			fmt.Fprintf(os.Stderr, "AID pass %d: gsk=%d wit=%d apps=%d\n", pass, len(gsk), len(wit), n)
+			for _, w := range wit {
+				fmt.Fprintf(os.Stderr, "   wit %s\n", tb.Show(w))
+			}
+		}
 		out = out[:0]
 		for _, f := range hyps {
 			if in := tb.InstAll(f, gsk, apps, 3, 1); in != f {
@@ -475,7 +488,7 @@ func (x *Exec) instantiationAid(st *State, goal *Term) []*Term {
 				out = append(out, in)
 			}
 		}
-		if pass == 2 {
+		if pass == 3 {
 			break
 		}
 		// witnesses and ground reads produced by this pass feed the next one
@@ -500,7 +513,7 @@ func (x *Exec) instantiationAid(st *State, goal *Term) []*Term {
 			}
 			if ng.hasQ {
 				for _, s := range tb.Skolems(w) {
-					if !have[s.id] && len(wit) < 14 && strings.Contains(s.name, "!skf") {
+					if !have[s.id] && (strings.Contains(s.name, "!skf") || strings.Contains(s.name, "!wit")) {
 						have[s.id] = true
 						wit = append(wit, s)
 						grew = true
@@ -510,6 +523,15 @@ func (x *Exec) instantiationAid(st *State, goal *Term) []*Term {
 		}
 		if !grew {
 			break
+		}
+		// keep the simplest witnesses (junk matches produce large difference terms)
+		if len(wit) > 16 {
+			sz := map[int]int{}
+			for _, w := range wit {
+				sz[w.id] = tb.size(w, 48)
+			}
+			sort.SliceStable(wit, func(i, j int) bool { return sz[wit[i].id] < sz[wit[j].id] })
+			wit = wit[:16]
 		}
 	}
 	return out
@@ -524,13 +546,13 @@ func (x *Exec) aidPoints(st *State, goal *Term) []*Term {
 		seen[s.id] = true
 	}
 	// witnesses of hypothesis-side existentials and CRC frame-lemma indices, most recent first
-	for i := len(st.pc) - 1; i >= 0 && len(sks) < 12; i-- {
+	for i := len(st.pc) - 1; i >= 0 && len(sks) < 60; i-- {
 		a := st.pc[i]
 		if a.hasQ {
 			continue
 		}
 		for _, s := range x.tb.Skolems(a) {
-			if !seen[s.id] && len(sks) < 12 {
+			if !seen[s.id] && len(sks) < 60 {
 				seen[s.id] = true
 				sks = append(sks, s)
 			}
